@@ -177,6 +177,10 @@ def build_huge(cases, maxa):
     return rows
 
 
+# granularity probes: n so large that the mode exceeds 2^53 (the last one is a control: mode 2^53, every integer representable)
+GRAN = [(2 ** 62, 0.5), (2 ** 60, 0.25), (2 ** 55, 0.5), (2 ** 54, 0.5)]
+
+
 def main(out):
     global CASES, MAXA
     huge_q = build_huge(HUGE, 14); huge_t = build_huge(HUGE_T, 40)
@@ -208,8 +212,14 @@ BTabH == <<
 BTabHT == <<
 %s
 >>
+
+\* granularity probes (the values returned over random streams must not all be even)
+BTabG == <<
+%s
+>>
 =============================================================================
-''' % (',\n'.join(rows_quick), ',\n'.join(rows_thorough), ',\n'.join(huge_q), ',\n'.join(huge_t))
+''' % (',\n'.join(rows_quick), ',\n'.join(rows_thorough), ',\n'.join(huge_q), ',\n'.join(huge_t),
+       ',\n'.join('  [id |-> %d, n |-> "%d", p |-> "%s"]' % (i + 1, n, repr(p)) for i, (n, p) in enumerate(GRAN)))
     open(out, 'w').write(text)
     print('wrote', out, len(rows_quick), len(rows_thorough))
 
